@@ -396,6 +396,22 @@ def stream_items(tier, seed, want):
                     for g3 in gen.insert_at_nodes(g2, lambda a: ('mwstate', a))[:2]:
                         add(g3, inp01)
     if 'state' in want:
+        # a shared memoized parser run where no output is required of it (check mode), abandoned by the enclosing alternative
+        # and visited again at the same position: whatever the table remembers, the inspector must have been fed the tokens
+        # of the second visit when the observation behind it is made
+        A_, B_, ANY_ = ('just', [gen.A]), ('just', [gen.B]), ('any',)
+        for body in [('just', [gen.A, gen.B]), ('then', ANY_, ANY_), ('collect', 'vec', ('rep', A_, 1, None)), ('then', A_, ('ornot', B_))]:
+            d = ('memo', 54, body)
+            c = ('call', 0)
+            obs = ('mwstate', ('ornot', ANY_))
+            for main in [('or', ('ithen', c, ('then', ('just', [gen.EA]), obs)), ('ithen', c, obs)),
+                         ('then', ('rewind', ('ignored', c)), ('ithen', c, obs)),
+                         ('choices', [('then', ('ignored', c), ('just', [gen.EA])), ('then', ('ignored', c), obs), obs]),
+                         ('then', ('andis', ('ignored', c), ('ignored', c)), obs),
+                         ('collect', 'vec', ('rep', ('or', ('ithen', c, ('just', [gen.EA])), ('ithen', c, obs)), 0, 2))]:
+                for mode in ('parse', 'check'):
+                    add(main, inputs_all(4, [gen.A, gen.B]), defs=[d], mode=mode, prio=True)
+    if 'state' in want:
         # negative lookahead whose inner parser fails AFTER consuming: whatever it pulled must be gone from the inspector before
         # parsing continues (a `not` in sequence position, in a repetition, under and_is)
         A_, B_ = gen.A, gen.B
@@ -457,7 +473,59 @@ class C04(Prop):
     rule = ('every grammar of the validation streams (C01 class, repetition/consumers, emitters, recovery, decorations, context, '
             'all four error kinds) is run twice, through parse and through check; non-trivial = backtracking grammar and '
             'non-empty input; pairs are distinct (grammar, input, mode) triples')
-    bins = ALL.bins
+    bins = ALL.bins + ['h_text']
+
+    def custom_run(self, lines, tier, seed, jobs):
+        import vcheck
+        tl = [l for l in lines if l.startswith('T ')]
+        lines = [l for l in lines if not l.startswith('T ')]
+        tot, fails = vcheck.run_cases(self.name, lines, jobs=jobs, timeout=900 if tier == 'quick' else 3600) if lines else (
+            {'pairs': 0, 'corr_disagree': 0, 'pred_fail': 0, 'outcomes': {}, 'impl_s': 0.0, 'model_s': 0.0, 'crash': None, 'samples': [], 'nontrivial': 0}, [])
+        if len(lines) >= 10 or tl:
+            self.regex_modes(tl, tot, fails, tier, jobs)
+        return tot, fails
+
+    def regex_modes(self, given, tot, fails, tier, jobs):
+        """`regex(p)` (an external engine, no model): the parser run for its output against the same parser where no output is
+        required of it (`to_slice()` / `ignored()` run it in check mode) — both must consume the same text"""
+        import multiprocessing
+        ralpha = [97, 98, 48, 55, 32, 95, 233, 10]
+        spec = inputs_all(4 if tier == 'quick' else 5, ralpha)
+        if given:
+            lines = []
+            for l in given:
+                t = l.split(' ')
+                for pn in ('regex', 'regex_c', 'regex_i'):
+                    lines.append(' '.join(t[:3] + [pn] + t[4:]))
+            lines = list(dict.fromkeys(lines))
+        else:
+            lines = [f'T w{pi}{inst[0]} {inst} {pn} 1 {pi} I {spec}' for pi in range(len(REGEX_PATTERNS)) for inst in ('char', 'u8')
+                     for pn in ('regex', 'regex_c', 'regex_i')]
+        with multiprocessing.Pool(jobs) as pool:
+            results = pool.map(_text_impl_worker, lines)
+        obs = {}
+        for line, (rc, out) in zip(lines, results):
+            if rc != 0:
+                tot['crash'] = f'h_text rc={rc}'
+            t = line.split(' ')
+            for o in out.split('\n'):
+                if ' M ' in o:
+                    key, _, v = o.partition(' M ')
+                    obs[(t[1], t[3], int(key.rpartition('.')[2]))] = (v.partition(' i')[0], line)
+        for (cid, pn, k), (v, line) in obs.items():
+            if pn == 'regex':
+                continue
+            ref = obs.get((cid, 'regex', k))
+            tot['pairs'] += 1
+            tot['nontrivial'] += 1
+            tot['outcomes']['regex-modes'] = tot['outcomes'].get('regex-modes', 0) + 1
+            if ref is None:
+                fails.append(('missing', line, k, 'no observation of the emitting regex run'))
+            elif ref[0] != v:
+                tot['pred_fail'] += 1
+                self.fail(tot, fails, 'pred', line, k,
+                          f'CHECK-VS-EMIT regex({REGEX_PATTERNS[int(line.split(" ")[5])]!r}) on input #{k} {input_of(line, k)}: run for its output it gives {ref[0]}; '
+                          f'under {"to_slice()" if pn == "regex_c" else "ignored().to_slice()"} (check mode) it gives {v}')
 
     def cases(self, tier, seed):
         lines = []
@@ -1723,6 +1791,17 @@ def deep_probes(prop, tot, fails, tier, jobs):
              for d in depths for m in ('parse', 'check')]
     with multiprocessing.Pool(min(jobs, 8)) as pool:
         res = pool.map(_deep_worker, jobsl)
+    # "defined exactly once": a refused second definition leaves the first one in place
+    rc_, out_, err_ = _deep_worker(('define_twice', 0, 'parse'))[3:]
+    tot['pairs'] += 1
+    tot['nontrivial'] += 1
+    ok_ = out_ == 'define_twice refused=true first-definition-kept'
+    tot['outcomes']['define-once:' + ('ok' if ok_ else 'FAIL')] = 1
+    if not ok_:
+        tot['pred_fail'] += 1
+        prop.fail(tot, fails, 'pred', None, 0,
+                  f'DEFINE-ONCE probe: a recursive parser defined a second time (the second `define` must panic and leave the first '
+                  f'definition in place for every handle): exit status {rc_}, output {out_!r} {err_!r}')
     for probe, depth, mode, rc, out, err in res:
         tot['pairs'] += 1
         tot['nontrivial'] += 1
@@ -2262,6 +2341,11 @@ class C14(Prop):
             for inst in ('char', 'u8'):
                 lines.append(f'T z{n}{inst[0]} {inst} regex 1 {pi} I {inputs_all(maxlen, ralpha)}')
             n += 1
+            # … and where no output is required of it (check mode under to_slice / ignored)
+            for pn in ('regex_c', 'regex_i'):
+                for inst in ('char', 'u8'):
+                    lines.append(f'T z{n}{inst[0]} {inst} {pn} 1 {pi} I {inputs_all(maxlen, ralpha)}')
+                n += 1
             for at in (1, 2):
                 for inst in ('char', 'u8'):
                     lines.append(f'T z{n}{inst[0]} {inst} regex_at 2 {pi} {at} I {inputs_all(maxlen, ralpha)}')
@@ -2321,7 +2405,7 @@ class C14(Prop):
                     continue
                 if getattr(self, 'insp_only', False):
                     continue
-                if pname in ('regex', 'regex_at'):
+                if pname in ('regex', 'regex_at', 'regex_c', 'regex_i'):
                     if inst == 'u8':
                         obs[(cid[:-1], inst, k)] = (a, toks, pname, params)
                         continue          # &[u8]: compared with &str below (ASCII inputs)
